@@ -26,7 +26,7 @@ RULE = ("pipelines {two mapped functions + reduction, 2-D map -> partial reducti
         "dict, default-only dict, partial dict} x {map, map_async}; for each configuration every schedule with <= B deviations (deviation = not letting the "
         "caller continue after a submit / not running the oldest pending task when one must run). Plus the same configurations on real Thread/Process pools "
         "(one free-running schedule each, not claimed as schedule coverage)")
-ASSUMPTIONS = ["a submitted task is atomic in the deferred executor (no preemption inside a task)", "reference = MapSpec denotation of vmc/gen_map.py",
+ASSUMPTIONS = ["a submitted task is atomic in the deferred executor; in task-splitting mode tasks are logical threads with scheduling points at user-function entry and storage dump only", "reference = MapSpec denotation of vmc/gen_map.py",
                "real pools contribute one OS-chosen schedule per configuration"]
 BUDGET = {"quick": 80.0, "thorough": 900.0}
 
@@ -65,6 +65,8 @@ def _install_dump_counter():
         _orig[cls] = cls.dump
 
         def dump(self, key, value, _o=_orig[cls]):
+            from .. import threads
+            threads.point(("storage.dump",))  # a scheduling point when tasks run as logical threads (no-op otherwise)
             _DUMPS.append((id(self), tuple(key) if isinstance(key, tuple) else key))
             return _o(self, key, value)
         cls.dump = dump
@@ -92,6 +94,22 @@ def _install_one_manager():
     if not isinstance(d.multiprocessing, _OneManager):
         d.multiprocessing = _OneManager()
     d.multiprocessing.Manager()  # start it now: before any fork of crash children
+
+
+def _install_select_point():
+    """scheduling point between argument selection and the user-function call of a map element (task-splitting mode)"""
+    import pipefunc.map._run as r
+    if getattr(r._select_kwargs_and_eval_resources, "_vmc", False):
+        return
+    orig = r._select_kwargs_and_eval_resources
+
+    def wrapped(*a, **k):
+        from .. import threads
+        out = orig(*a, **k)
+        threads.point(("selected-kwargs",))
+        return out
+    wrapped._vmc = True
+    r._select_kwargs_and_eval_resources = wrapped
 
 
 def storage_arg(st):
@@ -137,7 +155,16 @@ def execute(cfg, chooser):  # noqa: C901, PLR0912
     spec = PIPES[cfg["pipe"]]
     inputs = gen_map.make_inputs(spec, "list")
     s = sched.Sched(chooser, eager_loop=bool(cfg.get("eager_loop", False)))
-    ex, expected_ex = make_executors(spec, cfg["exec"], s)
+    baton = None
+    if cfg["exec"] == "baton":
+        # task-splitting mode: the tasks of a generation are logical threads that interleave at user-function entry and at
+        # storage dumps, so tasks overlap and start order differs from completion order
+        from .. import threads
+        _install_select_point()
+        baton = threads.BatonExecutor(chooser)
+        ex, expected_ex = baton, {}
+    else:
+        ex, expected_ex = make_executors(spec, cfg["exec"], s)
     used_ex = {}
     orig_run = s.run_task
 
@@ -151,7 +178,13 @@ def execute(cfg, chooser):  # noqa: C901, PLR0912
     del _DUMPS[:]
     obs = {"status": "ok"}
     try:
-        p = gen_map.build(spec)
+        hook = None
+        if baton is not None:
+            from .. import threads as _thr
+
+            def hook(name, kw_):
+                _thr.point(("enter", name))
+        p = gen_map.build(spec, hook=hook)
         kw = dict(run_folder=folder, internal_shapes=gen_map.internal_shapes_arg(spec), executor=ex, storage=storage_arg(cfg["storage"]))
         try:
             with contextlib.redirect_stdout(io.StringIO()), warnings.catch_warnings():
@@ -176,6 +209,10 @@ def execute(cfg, chooser):  # noqa: C901, PLR0912
         obs["log"] = sorted(terms.LOG)
         obs["order"] = tuple(n for n, _ in terms.LOG)
         obs["leftover"] = len(s.pending)
+        if baton is not None and any(st != "ok" for st in baton.status):
+            obs["status"] = "hang"
+            obs["detail"] = f"logical-thread scheduler: {baton.status}"
+            return obs
         obs["used_ex"] = {str(k): sorted(v) for k, v in used_ex.items()}
         obs["expected_ex"] = {str(k): v for k, v in expected_ex.items()}
         # dumps: every element of every StorageBase exactly once
@@ -375,13 +412,18 @@ def _core(cfg):
 
 # (stage bound, which configurations): bounds are iterated upwards, simplest first; a stage explores ALL schedules with
 # at most that many deviations of each of its configurations
-STAGES = {"quick": [(1, "all"), (2, "core")], "thorough": [(1, "all"), (2, "all"), (1, "eager-loop"), (3, "core"), (2, "eager-loop-core"), (4, "core-sync-dict")]}
+STAGES = {"quick": [(1, "all"), (2, "core"), (1, "task-splitting")], "thorough": [(1, "all"), (2, "all"), (1, "eager-loop"), (2, "task-splitting"), (3, "core"), (2, "eager-loop-core"), (4, "core-sync-dict")]}
 
 
 def plan(tier, seed):
     units = []
     cfgs = configs(tier)
     for b, which in STAGES[tier]:
+        if which == "task-splitting":
+            for pipe, spec in PIPES.items():
+                for st in ("file_array", "dict", "shared_memory_dict"):
+                    units.append((f"task-splitting-preemptions<={b}", ("dfs", {"pipe": pipe, "storage": st, "exec": "baton", "entry": "sync"}, b)))
+            continue
         for cfg in cfgs:
             if which.startswith("eager-loop"):
                 # async only: additionally let a task complete between any two ready event-loop handles
